@@ -53,6 +53,9 @@
 #ifndef VP_S
 #define VP_S 5
 #endif
+#ifndef VP_SHAPE
+#define VP_SHAPE 0
+#endif
 #define VP_NE (VP_E + 1)          /* pre-state entries + the one an insert creates */
 #define VP_TABLEN 4
 
@@ -571,10 +574,21 @@ vp_build(void) {
     VP_ASSUME(g_key[j] < 4);
     g_hash[j] = ldb_hash(&g_key[j], 1, 0);
     g_charge[j] = vp_u8();
-    g_in[j] = vp_bool();
+    /* the entry's class is concrete per query (VP_SHAPE: one decimal digit per
+       entry, entry 0 first): 1 = cached and unreferenced (on the LRU list),
+       2 = cached and referenced by 1..2 clients (on the in-use list),
+       3 = erased from the cache but still referenced by 1..2 clients.
+       A symbolic class makes every list pointer symbolic (measured: 25x). */
+    {
+      int d = VP_SHAPE, q, extra = vp_bool();
+      for (q = j + 1; q < VP_E; q++)
+        d /= 10;
+      d %= 10;
+      VP_ASSERT(d >= 1 && d <= 3, "vp-model: VP_SHAPE digit");
+      g_in[j] = (d != 3);
+      g_refs[j] = (d == 1) ? 1u : (d == 2) ? 2u + (uint32_t)extra : 1u + (uint32_t)extra;
+    }
     VP_ASSUME(g_cap > 0 || !g_in[j]);   /* capacity 0 never caches anything */
-    g_refs[j] = vp_u8();
-    VP_ASSUME(g_refs[j] >= 1 && g_refs[j] <= 3);
     for (i = 0; i < j; i++)
       VP_ASSUME(!(g_in[i] && g_in[j]) || g_key[i] != g_key[j]);
     e->value = &vp_valobj[j];
